@@ -3,10 +3,10 @@
 
     Only statements; proofs are in [Queues/Proofs*.v]. *)
 From Irismod Require Import Queues.Common.
-From Irismod Require Queues.Htlc Queues.ProofsHtlc.
-From Irismod Require Queues.Random Queues.ProofsRandom.
-From Irismod Require Queues.Farm Queues.ProofsFarm.
-From Irismod Require Queues.Service Queues.ProofsService.
+From Irismod Require Queues.Htlc Queues.ProofsHtlc Queues.CheckHtlc Queues.SoundHtlc.
+From Irismod Require Queues.Random Queues.ProofsRandom Queues.CheckRandom Queues.SoundRandom.
+From Irismod Require Queues.Farm Queues.ProofsFarm Queues.CheckFarm Queues.SoundFarm.
+From Irismod Require Queues.Service Queues.ProofsService Queues.CheckService Queues.SoundService.
 
 (** ** HTLC (modules/htlc/abci.go: BeginBlocker; keeper/htlc.go) *)
 Module H.
@@ -54,6 +54,15 @@ Print Assumptions processed_exactly_once_htlc.
 Theorem htlc_swallowed_refund_error_breaks_hygiene : exists ops, ~ QInv (run (init 1) ops).
 Proof. exact failing_refund_breaks_QInv. Qed.
 Print Assumptions htlc_swallowed_refund_error_breaks_hygiene.
+
+(** The check's hygiene clause (code 12) is implied by the invariant: on the projection of every
+    reachable model state it evaluates to [true] — an implementation that corresponds to the
+    model cannot trip it. *)
+Theorem htlc_check_hygiene_clause_sound :
+  forall h0 ops, Forall op_clean ops ->
+    Queues.CheckHtlc.hhyg (Queues.SoundHtlc.obs_of (run (init h0) ops)) = true.
+Proof. exact Queues.SoundHtlc.hygiene_clause_holds_on_every_history. Qed.
+Print Assumptions htlc_check_hygiene_clause_sound.
 
 (** non-vacuity: a history with two contracts due at one height, one claimed in the last
     possible block, one refunded *)
@@ -126,7 +135,13 @@ Theorem oracle_requests_handed_over :
 Proof. exact ProofsRandom.oracle_requests_handed_over. Qed.
 Print Assumptions oracle_requests_handed_over.
 
-(** The interval guard (fix 7353d40) is what makes [r_future] hold: a request whose destination
+(** The static part of the check's hygiene clause (code 22) is implied by the invariant. *)
+Theorem random_check_hygiene_clause_sound :
+  forall h0 ops, Queues.CheckRandom.rhyg (Queues.SoundRandom.obs_of (run (init h0) ops)) = true.
+Proof. exact Queues.SoundRandom.hygiene_clause_holds_on_every_history. Qed.
+Print Assumptions random_check_hygiene_clause_sound.
+
+(** The interval guard (fix "random: reject a block interval ...") is what makes [r_future] hold: a request whose destination
     wraps below the current height is rejected. *)
 Example random_wrapping_interval_rejected :
   snd (step (init 7) (Request 1 (two64 - 3) false 0 true)) = Rej
@@ -186,12 +201,20 @@ Print Assumptions processed_exactly_once_farm.
 (** The hypothesis on the end-blocker is necessary: Refund dequeues first and the blocker drops
     its error, so a refund failing in updatePool leaves the pool out of the queue and never
     refunded.  (Reached on the unfixed tree through AdjustPool in a pool's last block —
-    corpus/C13/farm-adjust-in-last-block-*.jsonl; fixed by 5ce9c76 = farm's 6569134.) *)
+    corpus/C13/farm-adjust-in-last-block-*.jsonl; fixed by "farm AdjustPool lets every reward
+    rule limit the new end height".) *)
 Theorem farm_swallowed_refund_error_loses_pool :
   exists ops s p, s = run (init 1) ops /\ get 1 (pools s) = Some p /\ p_closed p = PStuck
                   /\ (forall h, ~ In (h, 1) (fq s)) /\ ~ In 1 (map fst (refunds s)).
 Proof. exact failing_refund_loses_pool. Qed.
 Print Assumptions farm_swallowed_refund_error_loses_pool.
+
+(** The check's hygiene clause (code 32) is implied by the invariant. *)
+Theorem farm_check_hygiene_clause_sound :
+  forall h0 ops, Forall op_wf ops ->
+    Queues.CheckFarm.fhyg (Queues.SoundFarm.obs_of (run (init h0) ops)) = true.
+Proof. exact Queues.SoundFarm.hygiene_clause_holds_on_every_history. Qed.
+Print Assumptions farm_check_hygiene_clause_sound.
 
 (** non-vacuity: two pools ending together at height 6 (one adjusted to it in its last block),
     one pool destroyed in the block it falls due, one with nothing left to refund *)
@@ -263,13 +286,20 @@ Theorem service_entries_never_lost :
 Proof. exact entries_never_lost. Qed.
 Print Assumptions service_entries_never_lost.
 
-(** Before fix cb4912d the new-batch handler returned without dequeuing when the provider
+(** Before the fix ("service: new request batch handler skips the batch and dequeues when no
+    provider can be priced") the new-batch handler returned without dequeuing when the provider
     filter failed: the invariant was lost after one block (and with no failing filter the old
     handler is the present one). *)
 Theorem service_unfixed_handler_refuted :
   exists s, QInv s /\ ~ QInv (end_block_old [1] s []) /\ end_block_old [] s [] = end_block s [].
 Proof. exact old_handler_leaves_stale_entry. Qed.
 Print Assumptions service_unfixed_handler_refuted.
+
+(** The check's hygiene clause (code 42) is implied by the invariant. *)
+Theorem service_check_hygiene_clause_sound :
+  forall h0 ops, Queues.CheckService.shyg (Queues.SoundService.obs_of (run (init h0) ops)) = true.
+Proof. exact Queues.SoundService.hygiene_clause_holds_on_every_history. Qed.
+Print Assumptions service_check_hygiene_clause_sound.
 
 (** non-vacuity: a repeated context (timeout 2, every 3 blocks, 2 batches) paused and restarted
     while its batch runs, a one-shot context answered in time, one whose consumer cannot pay *)
